@@ -140,6 +140,39 @@ def meanGrid (g : GridA) (axis : Nat) : Except Exc GridA :=
     | none => .error .keyError
     | some ms => .ok ⟨a, ms⟩
 
+/-! ### the axis argument: `axis = int(axis)`, negative values
+
+  numpy reads a negative axis from the last one (`-1` = the last axis).  `mean` drops the dimension name and the
+  map *by position* (`i != axis`), so since the repair it first counts the axis from the front:
+  `if -ndim <= axis < 0: axis += ndim`; anything else goes to numpy as it is (AxisError when out of range). -/
+
+/-- the position the repaired `mean` works with -/
+def normAxis (rank : Nat) (axis : Int) : Except Exc Nat :=
+  if 0 ≤ axis then .ok axis.toNat
+  else if -(rank : Int) ≤ axis then .ok (axis + rank).toNat
+  else .error .valueError          -- numpy AxisError
+
+/-- `mean(dataset, var, axis)` for the axis as the request spells it -/
+def meanAxis (a : Arr) (axis : Int) : Except Exc Arr :=
+  match normAxis a.shape.length axis with
+  | .error e => .error e
+  | .ok k => meanArr a k
+
+def meanGridAxis (g : GridA) (axis : Int) : Except Exc GridA :=
+  match normAxis g.array.shape.length axis with
+  | .error e => .error e
+  | .ok k => meanGrid g k
+
+/-- before the repair: numpy took the negative axis (shape and data of the axis counted from the last), the
+    comprehension `i != axis` dropped no name: every dimension name (and, on a grid, every map) stayed -/
+def meanAxisOld (a : Arr) (axis : Int) : Except Exc Arr :=
+  match normAxis a.shape.length axis with
+  | .error e => .error e
+  | .ok k =>
+    match meanArr a k with
+    | .error e => .error e
+    | .ok r => .ok (if axis < 0 then { r with dims := a.dims } else r)
+
 /-! ### `bounds` -/
 
 inductive Axis where | x | y | z
